@@ -193,7 +193,8 @@ static void c0205_case(const uint8_t* src, size_t n) {
           vb_free(&pr);
         }
         { int partial = 0; ro_each_node(it, filled_cb, &partial);
-          if (partial) vh_violation("definite-container-not-filled", "%d definite container(s) of the returned tree hold fewer members than they were allocated for", partial); }
+          /* "completely filled" (size == declared count) is judged by the tree comparison below; spare capacity is only observed */
+          if (partial) VH_COUNT("decoded_definite_containers_with_spare_capacity", partial); }
         struct addr_ud au = {in, in + n, 0, 0};
         walk_blocks(it, addr_cb, &au);
         if (au.hits) vh_violation("tree-refers-to-input", "%d pointer(s) in the returned tree point into the caller's input buffer", au.hits);
